@@ -252,6 +252,47 @@ func driveEnc(args []string) error {
 				}
 				one(fmt.Sprintf("ill/%d", i), h)
 			}
+			// directed: an out-of-range adjustment as the first violation, with every colour kind / number kind, plain and
+			// incrementing, on a Reset and on a never-Reset Encoder; then calls that would be legal
+			{
+				cols := [][]int{{0, 0x40, 0x80, 0xc0, 0xff}, {0, 0x11, 0x22, 0x33, 0x44}, {0, 1, 2, 3, 0xff}, {0, 1, 2, 3, 4}, {1, 5, 0, 0, 0}, {2, 9, 0, 0, 0}, {3, 0x40, 0x7f, 0x82, 0}, {0, 3, 0x4a, 0x8a, 0}}
+				nums := []float32{0, 1, 0.5, 0.25, 1000.5, -3, 200}
+				k := 0
+				for _, adj := range []int{7, 8, 255} {
+					for incr := 0; incr < 2; incr++ {
+						var bads []Call
+						for _, c := range cols {
+							x := mkCall("SetCReg")
+							x.C, x.Adj, x.Incr = c, adj, incr
+							bads = append(bads, x)
+						}
+						for _, f := range nums {
+							x := mkCall("SetNReg", f)
+							x.Adj, x.Incr = adj, incr
+							bads = append(bads, x)
+						}
+						if incr == 0 {
+							x := mkCall("StartPath", 1, 2)
+							x.Adj = adj
+							bads = append(bads, x)
+						}
+						for _, bad := range bads {
+							k++
+							var h []Call
+							if k%3 != 0 {
+								r0 := mkCall("Reset", -32, -32, 32, 32)
+								r0.Pal = palJ(defaultPal())
+								h = append(h, r0)
+							}
+							if k%2 == 0 {
+								h = append(h, mkCall("SetLOD", 1, 2))
+							}
+							h = append(h, bad, mkCall("StartPath", 1, 2), mkCall("RelLineTo", 3, 0), mkCall("ClosePathEndPath"), mkCall("Bytes"))
+							one(fmt.Sprintf("ill/badadj/%d", k), h)
+						}
+					}
+				}
+			}
 		case "open":
 			rng := newRand(104)
 			for i := 0; i < *n/2+1; i++ {
